@@ -180,6 +180,27 @@ func confPrograms() []confProgram {
 				o.add("c.recv %s", code(err))
 				o.add("c.send-after-cancel %s", code(cs.Send(frameC(1))))
 			}},
+		{name: "client-deadline-becomes-server-deadline", timeout: 30 * time.Second,
+			server: func(s tunnelpb.TunnelService_OpenTunnelServer, o *obsLog, sy chan string) error {
+				dl, ok := s.Context().Deadline()
+				left := time.Until(dl)
+				o.add("s.has-deadline %v about-30s=%v", ok, left > 25*time.Second && left <= 30*time.Second)
+				return nil
+			},
+			client: func(ctx context.Context, cancel context.CancelFunc, cs tunnelpb.TunnelService_OpenTunnelClient, o *obsLog, sy chan string) {
+				_, err := cs.Recv()
+				o.add("c.recv %s", code(err))
+			}},
+		{name: "no-client-deadline-no-server-deadline",
+			server: func(s tunnelpb.TunnelService_OpenTunnelServer, o *obsLog, sy chan string) error {
+				_, ok := s.Context().Deadline()
+				o.add("s.has-deadline %v", ok)
+				return nil
+			},
+			client: func(ctx context.Context, cancel context.CancelFunc, cs tunnelpb.TunnelService_OpenTunnelClient, o *obsLog, sy chan string) {
+				_, err := cs.Recv()
+				o.add("c.recv %s", code(err))
+			}},
 		{name: "client-deadline", timeout: 200 * time.Millisecond,
 			server: func(s tunnelpb.TunnelService_OpenTunnelServer, o *obsLog, sy chan string) error {
 				_, err := s.Recv()
